@@ -318,3 +318,44 @@ Theorem C07_feerate_estimate_is_source :
     TxUtilGen.gen_estimate_feerate_per_kw prof fee w = Val (MutualClose.estimate_feerate_per_kw fee w).
 Proof. exact TxUtilGenProofs.gen_estimate_is_model. Qed.
 Print Assumptions C07_feerate_estimate_is_source.
+
+(** The validator the theorems above are about is the one in the source.  Gen/MutualCloseGen.v is the
+    statement-by-statement translation (tools/gen_rustfn.py, regenerated on every run) of
+    SimpleValidator::validate_mutual_close_tx - the whole body: both commitment infos present
+    (policy-mutual-value-matches-commitment, unfiltered), a positive value needs a script on either
+    side, the upfront shutdown script, no pending HTLCs, the checked sum of the outputs, validate_fee
+    on the weight of the closing transaction, the epsilon comparison of the side that does not pay the
+    fee against both commitments, and the holder's script in the wallet or on the allowlist - with
+    ::outside_epsilon_range and CommitmentInfo2::htlcs_is_empty; validate_fee is the translation of
+    Gen/CommitmentPolicyGen.v.  Parameters of the translation: the wallet's two answers (uninterpreted
+    functions of identities; None = the wallet's error), the policy filter, and the weight
+    mutual_close_tx_weight returns for LDK's ClosingTransaction built from the function's own
+    arguments - instantiated here with the model's [close_weight] of the canonical closing
+    transaction.  Scripts and paths are identities on the source side; [dec] / [decp] say which byte /
+    index list an identity stands for, and any faithful naming will do ([enc (dec i) = i]).  For every
+    source-level policy, setup, enforcement state and arguments, every wallet, every filter and both
+    build profiles the generated function answers what the model answers on the abstraction, refusal
+    tags and panics included.  Side condition [close_fits] (boolean; true of every value of the Rust
+    types): the channel value, the two output values and the commitments' values fit u64.
+    Not translated: decode_and_validate_mutual_close_tx (script parsing, the recomposition against
+    LDK's builder, the likely/unlikely retry) - it stays tied by the correspondence check. *)
+From VLS Require Gen.CommitmentPolicyGen Gen.MutualCloseGen Proofs.MutualCloseGenProofs.
+Theorem C07_close_rules_are_source :
+  forall (prof : profile) (swarn : string -> bool) (gp : CommitmentPolicyGen.SimplePolicy)
+         (wcs : N -> N -> N -> option bool) (wal : N -> N -> N -> bool) (wid : N)
+         (gs : CommitmentPolicyGen.ChannelSetup) (ge : MutualCloseGen.EnforcementState)
+         (vh vc : N) (hs cs : option N) (pid : N)
+         (enc : script -> N) (dec : N -> script) (encp : path -> N) (decp : N -> path),
+    (forall i, enc (dec i) = i) -> (forall i, encp (decp i) = i) ->
+    MutualCloseGenProofs.close_fits gs ge vh vc = true ->
+    MutualCloseGen.gen_validate_mutual_close_tx prof swarn gp
+      (close_weight (tx_outs (close_of (MutualCloseGenProofs.abs_setup dec gs)
+                                       (MutualCloseGenProofs.abs_args dec decp vh vc hs cs pid))))
+      wcs wal wid gs ge vh vc hs cs pid =
+    MutualCloseGenProofs.of_res
+      (validate_mutual_close (MutualCloseGenProofs.tag_filter swarn)
+         (fun p s => wcs wid (encp p) (enc s)) (fun s p => wal wid (enc s) (encp p))
+         (MutualCloseGenProofs.abs_policy gp) (MutualCloseGenProofs.abs_setup dec gs)
+         (MutualCloseGenProofs.abs_estate ge) (MutualCloseGenProofs.abs_args dec decp vh vc hs cs pid)).
+Proof. exact MutualCloseGenProofs.gen_mutual_close_is_model. Qed.
+Print Assumptions C07_close_rules_are_source.
